@@ -2,8 +2,8 @@
 """Writes units/mpx.json: unit `mpx` (the real multipart_extract, plain CBMC) with one variant per pair
 (fragment length L, carried-buffer length M).  Re-run after changing NMAX / MMAX:  python3 units/gen_mpx.py"""
 import json, os
-NMAX = int(os.environ.get('MPX_NMAX', 8))     # fragment bytes  0..NMAX   (quick tier)
-MMAX = int(os.environ.get('MPX_MMAX', 4))     # carried bytes   0..MMAX   (quick tier)
+NMAX = int(os.environ.get('MPX_NMAX', 6))     # fragment bytes  0..NMAX   (quick tier)
+MMAX = int(os.environ.get('MPX_MMAX', 3))     # carried bytes   0..MMAX   (quick tier)
 NTH = int(os.environ.get('MPX_NTH', 10))      # thorough tier: additionally up to NTH x MTH
 MTH = int(os.environ.get('MPX_MTH', 5))
 GEN = [(6, 0), (3, 3)]                         # variants that enter with NO patterns (real gen_regex executed)
